@@ -125,13 +125,38 @@ theorem C10F_forward_unchanged (s : Node) (c : Nat) (short : Bool) (q : Req) (c'
       ∃ x rid cid, s.conns[c]? = some x ∧ x.link = none ∧ x.initCmd = some (rid, cid) ∧ f = .init rid cid) :=
   request_fwd_source s c short q c' f h
 
-/-- nothing else is ever sent to the leader, except the INIT a detached link object re-sends when it reconnects after
-losing its socket -/
+/-- nothing else is ever sent to the leader, except (a) the INIT a detached link object re-sends when it reconnects
+after losing its socket, and (b) when a connection closes: the will commands it registered, each exactly as registered
+(`WillOf`), preceded by the INIT it announced when the link has to be opened for them -/
 theorem C10F_forward_nothing_else (s : Node) (e : Event) (c : Nat) (f : Fwd) (h : (c, f) ∈ (step s e).2.fwd)
     (hreq : ∀ d short q, e ≠ .request d short q) :
-    ∃ x l rid cid, s.conns[c]? = some x ∧ x.link = some l ∧ l.initC = some (rid, cid) ∧ f = .init rid cid ∧
-      ((e = .linkDown c) ∨ ∃ a, e = .leader a) :=
+    ∃ x, s.conns[c]? = some x ∧
+      ((∃ l rid cid, x.link = some l ∧ l.initC = some (rid, cid) ∧ f = .init rid cid ∧ ((e = .linkDown c) ∨ ∃ a, e = .leader a)) ∨
+       WillOf x f) :=
   other_fwd_source s e c f h hreq
+
+/-- **Will commands are forwarded at the close, unchanged, in registration order** — when the closing connection has a
+transparency wrapper and `CheckClient` yields a link; otherwise nothing is sent (they are DROPPED when there is no link,
+also on a node that has become the leader meanwhile: see `C10F_wills_dropped_without_link`). -/
+theorem C10F_wills_forwarded_at_close (s : Node) (c : Nat) (x : Conn) (l : Link)
+    (hx : s.conns[c]? = some x) (ho : x.closed = false) (ha : x.awaiting = none) (hw : x.wrapped = true) (hl : x.link = some l)
+    (hne : x.wills ≠ []) :
+    (step s (.close c)).2.fwd = (x.wills.map (fun w => Fwd.lk w.1 w.2)).map (fun f => (c, f)) := by
+  have hcf : closeFwd s x = x.wills.map (fun w => Fwd.lk w.1 w.2) := by
+    unfold closeFwd
+    rw [if_pos ⟨hw, hne⟩]
+    simp [checkClient, hl, willFwd]
+  simp [step, stepClose, hx, ho, ha, hcf]
+
+/-- a connection registered a will while the node was a follower; the node has no leader address when the connection
+closes (or has become the leader): the will is neither forwarded nor executed -/
+theorem C10F_wills_dropped_without_link :
+    (runOut {} [.accept .binary, .request 0 false (.will .lock (demoCmd 1 10 0 0)), .leader .none, .close 0]).map (·.fwd) = [[], [], [], []] ∧
+    (runOut {} [.accept .binary, .request 0 false (.will .lock (demoCmd 1 10 0 0)), .role .leader, .leader .none, .close 0]).map (·.fwd) =
+      [[], [], [], [], []] ∧
+    (runOut {} [.accept .binary, .request 0 false (.will .lock (demoCmd 1 10 0 0)), .close 0]).map (·.fwd) =
+      [[], [], [(0, .lk .lock (demoCmd 1 10 0 0))]] := by
+  decide
 
 /-! ## same outcome -/
 
@@ -261,16 +286,16 @@ theorem C10F_init_answer_unattached :
 /-! ## role change -/
 
 /-- **After the node became the leader**, the next request of an existing open connection — whatever protocol object it
-has — is decided by the node's own engine: nothing is forwarded, nothing is fabricated here; it reaches the engine through
+has — is decided by the node's own engine (a will command is queued on the connection, whatever the role): nothing is forwarded, nothing is fabricated here; it reaches the engine through
 the `AGAIN` re-dispatch exactly when the transparency loop was serving the connection; the plain loop serves it from
 then on; the link (if any) is left as it is. -/
-theorem C10F_role_change (s : Node) (c : Nat) (x : Conn) (short : Bool) (q : Req)
+theorem C10F_role_change (s : Node) (c : Nat) (x : Conn) (short : Bool) (q : Req) (hq : ∀ ct cmd, q ≠ .will ct cmd)
     (hx : s.conns[c]? = some x) (ho : x.closed = false) (ha : x.awaiting = none) :
     let s₁ := (step s (.role .leader)).1
     (step s₁ (.request c short q)).2 = { tag := .loc (x.plainLoop == some false) } ∧
     ∃ x', (step s₁ (.request c short q)).1.conns[c]? = some x' ∧ x'.plainLoop = some true ∧ x'.link = x.link := by
   intro s₁
-  exact request_as_leader s₁ c x short q hx ho ha rfl
+  exact request_as_leader s₁ c x short q hq hx ho ha rfl
 
 /-- **… and vice versa**: once the node is not the leader (any of the six other states), a LOCK / UNLOCK of an existing
 connection is never handed to the node's own engine (`C10F_not_local_partial`); when it is forwarded, the `AGAIN`
@@ -289,11 +314,18 @@ theorem C10F_role_change_back (s : Node) (c : Nat) (x : Conn) (short : Bool) (ct
 theorem C10F_local_exclusive (s : Node) (c : Nat) (short : Bool) (q : Req) (a : Bool)
     (h : (step s (.request c short q)).2.tag = .loc a) :
     (step s (.request c short q)).2.fwd = [] ∧ (step s (.request c short q)).2.client = [] := by
-  simp only [step, stepRequest] at h ⊢
+  simp only [step] at h ⊢
+  rcases will_or_not q with ⟨wct, wcmd, rfl⟩ | hq
+  · rw [stepRequest_will] at h ⊢
+    split at h
+    · simp at h
+    · rename_i x hx
+      rcases willConn_tag s c x wct wcmd with h1 | h1 | h1 <;> rw [h1] at h <;> cases h
+  rw [stepRequest_eq hq] at h ⊢
   split at h
   · simp at h
   · rename_i x hx
-    simp only at h ⊢
+    simp only [hx] at h ⊢
     generalize classify s x short q = b at h ⊢
     cases b <;> simp [applyConn] at h ⊢
 
